@@ -1,6 +1,6 @@
 //! C14: protocol hash vs. registration sequences, and the ProtocolCheck handshake.
 use bevy::prelude::*;
-use bevy_replicon::prelude::*;
+use bevy_replicon::{prelude::*, shared::replication::track_mutate_messages::TrackAppExt};
 use replicon_verif::util::*;
 use serde::{Deserialize, Serialize};
 use serde_json::json;
@@ -238,11 +238,13 @@ fn add_noise(app: &mut App, kind: u8) {
 }
 
 fn build(seq: &[usize], auth: AuthMethod) -> App {
-    build_with_noise(seq, auth, 0)
+    build_with_noise(seq, auth, 0, None)
 }
 
 /// `noise` != 0: unrelated local components/resources are created before and between the registrations.
-fn build_with_noise(seq: &[usize], auth: AuthMethod, noise: u64) -> App {
+/// `track_at`: mutate-message tracking (not a registration) is switched on before the registration
+/// with that index (`seq.len()` = after all of them).
+fn build_with_noise(seq: &[usize], auth: AuthMethod, noise: u64, track_at: Option<usize>) -> App {
     let mut app = App::new();
     app.add_plugins((
         MinimalPlugins,
@@ -262,11 +264,17 @@ fn build_with_noise(seq: &[usize], auth: AuthMethod, noise: u64) -> App {
     if noise != 0 {
         add_noise(&mut app, n.next() as u8);
     }
-    for a in seq {
+    for (i, a) in seq.iter().enumerate() {
+        if track_at == Some(i) {
+            app.track_mutate_messages();
+        }
         apply(&mut app, *a);
         if noise != 0 && n.below(2) == 0 {
             add_noise(&mut app, n.next() as u8);
         }
+    }
+    if track_at.is_some_and(|t| t >= seq.len()) {
+        app.track_mutate_messages();
     }
     if auth == AuthMethod::ProtocolCheck {
         app.add_observer(|_t: Trigger<ProtocolMismatch>, mut h: ResMut<Hs>| h.mismatch += 1);
@@ -374,6 +382,9 @@ fn sessions(case: &mut Case, client_seq: &[usize], server_seqs: &[&[usize]], via
         let same = format!("{:?}", server.world().resource::<ProtocolHash>()) == format!("{:?}", client.world().resource::<ProtocolHash>());
         server.world_mut().resource_mut::<RepliconServer>().set_running(true);
         let ce = server.world_mut().spawn(ConnectedClient { max_size: 1200 }).id();
+        // every other session a second connection's broken handshake (first byte only) is queued in
+        // front of the client's on the same channel in the same frame
+        let neighbour = if (si + client_seq.len()) % 2 == 0 { Some(server.world_mut().spawn(ConnectedClient { max_size: 1200 }).id()) } else { None };
         let notified_before = client.world().resource::<Hs>().mismatch;
         if via_connecting {
             client.world_mut().resource_mut::<RepliconClient>().set_status(RepliconClientStatus::Connecting);
@@ -387,6 +398,9 @@ fn sessions(case: &mut Case, client_seq: &[usize], server_seqs: &[&[usize]], via
             client.update();
             let out: Vec<_> = client.world_mut().resource_mut::<RepliconClient>().drain_sent().collect();
             for (ch, m) in out {
+                if let Some(nb) = neighbour {
+                    server.world_mut().resource_mut::<RepliconServer>().insert_received(nb, ch, m.slice(..1.min(m.len())));
+                }
                 server.world_mut().resource_mut::<RepliconServer>().insert_received(ce, ch, m);
             }
             server.update();
@@ -400,9 +414,10 @@ fn sessions(case: &mut Case, client_seq: &[usize], server_seqs: &[&[usize]], via
         let requests = server.world().resource::<Hs>().requests.clone();
         let notified = client.world().resource::<Hs>().mismatch - notified_before;
         let ctx = format!(
-            "session {} of the client app{}, server {:?} / client {:?}",
+            "session {} of the client app{}{}, server {:?} / client {:?}",
             si + 1,
             if via_connecting { ", connected through a Connecting phase" } else { "" },
+            if neighbour.is_some() { ", behind a second connection's truncated handshake" } else { "" },
             names(server_seq),
             names(client_seq)
         );
@@ -443,12 +458,22 @@ fn run_case(seed: u64, exe: Option<&str>) -> Case {
         case.pairs += 1;
         // the same registrations in an app with unrelated local state
         for k in 1..=3u64 {
-            let app = build_with_noise(&seq, AuthMethod::ProtocolCheck, seed.wrapping_mul(7) + k);
+            let app = build_with_noise(&seq, AuthMethod::ProtocolCheck, seed.wrapping_mul(7) + k, None);
             let h = format!("{:?}", app.world().resource::<ProtocolHash>());
             case.pairs += 1;
             if h != h0 {
                 case.errs.push(format!("same registration sequence {:?} hashes to {h0} in a bare app and to {h} in an app with unrelated local components/resources", names(&seq)));
                 break;
+            }
+        }
+        // both sides switch mutate-message tracking on, at different points of the same registration sequence
+        {
+            let (p1, p2) = (r.below(seq.len() + 1), r.below(seq.len() + 1));
+            let h1 = format!("{:?}", build_with_noise(&seq, AuthMethod::ProtocolCheck, 0, Some(p1)).world().resource::<ProtocolHash>());
+            let h2 = format!("{:?}", build_with_noise(&seq, AuthMethod::ProtocolCheck, 0, Some(p2)).world().resource::<ProtocolHash>());
+            case.pairs += 1;
+            if h1 != h2 {
+                case.errs.push(format!("same registration sequence {:?}, tracking switched on before registration {p1} in one app and before registration {p2} in the other: hashes {h1} and {h2}", names(&seq)));
             }
         }
         // determinism across processes
